@@ -41,6 +41,10 @@ def r1(ctx: Ctx) -> None:
     sites = ctx.cg.sites_calling(UT)
     ctx.require(len(sites) >= 1, f"no caller of {UT}")
     for s in sites:
+        if not caller_ok(ctx, s.caller, lambda g: g.qualname == UTM) and caller_ok(ctx, s.caller, lambda g: g.qualname == UTS):
+            # the routine that steps all markets does one of the steps itself instead of going through the per-market routine
+            ctx.unrec(s.caller, s.node, f"caller of {UT}", f"{UTS} steps a market directly; the rules decide the per-market routine {UTM} only")
+            continue
         ctx.check(caller_ok(ctx, s.caller, lambda g: g.qualname == UTM), s.caller, s.node, f"caller of {UT}", UTM, s.caller.qualname)
     for s in ctx.cg.sites_calling("Market._set_time"):
         ctx.violated(s.caller, s.node, "absolute clock setter is not used by the platform", "no caller of Market._set_time in pams", s.caller.qualname)
@@ -94,6 +98,18 @@ def r2(ctx: Ctx) -> None:
                     good = len(cs) == 1 and kw(cs[0], "market", 0) == el
                     seq.append((sel if good else None, short(src)))
         ok = [s for s, _ in seq] == [False, True] and all(src == "markets" for _, src in seq)
+        if not ok:
+            from ..kit import late_bound
+
+            lb = [(l, late_bound(l, bp)) for l in lps for bp in l.paths]
+            cap = sorted({v for _, (_, c) in lb for v in c})
+            if cap:
+                note = [n_ for _, (ns, c) in lb if c for n_ in ns][0]
+                ctx.violated(f, note.node, "every market is stepped once per tick, index markets after the others", "the market is bound when its update is queued", f"updates are queued in closures over the loop variable(s) {', '.join(cap)}: when they run, all of them step the market the loop visited last")
+                continue
+            if any(ns for _, (ns, _) in lb):
+                ctx.unrec(f, f.node, "stepping order over the given markets", "updates are queued in closures and run later; that form is not modelled")
+                continue
         ctx.check(ok, f, f.node, "stepping order over the given markets", "[non-index markets..., index markets...] each stepped once", str(seq))
     g = ctx.func(UTM)
     n = 0
@@ -116,6 +132,8 @@ def r2(ctx: Ctx) -> None:
                 ok = callee == "self.fundamentals.get_fundamental_price" and t is not None and poly_of(strip_ver(t)) == want_t and mid is not None and key(strip_ver(mid)) == "market.market_id"
             ctx.check(ok, g, ups[0].node, "the fundamental recorded for the new slot is the one for time + 1 of that market",
                       "fundamentals.get_fundamental_price(market_id, time+1) | compute_fundamental_index(time+1) for index markets", short(arg))
+        elif arg is not None and any(x[0] == "attr" and x[1] == ("sym", "self") and x[2] not in ("fundamentals",) for x in subterms(strip_ver(arg))):
+            ctx.unrec(g, ups[0].node, "the fundamental recorded for the new slot is the one for time + 1 of that market", "the value comes from state kept by the simulator (a memo): whether it equals the lookup for time + 1 is not decided", short(arg))
         else:
             ctx.violated(g, ups[0].node, "the fundamental recorded for the new slot is the one for time + 1 of that market", "a fundamental lookup for time + 1", short(arg))
     ctx.require(n >= 2, f"{UTM}: expected the ordinary and the index-market branch")
@@ -191,7 +209,7 @@ def r3(ctx: Ctx) -> None:
     ss = ctx.func("Session.setup")
     for p in normal_paths(ctx.paths(ss.qualname)):
         st = stores(p, "iteration_steps")
-        ok = len(st) == 1 and any(key(strip_ver(s)) == "settings['iterationSteps']" for s in subterms(st[0].value))
+        ok = len(st) == 1 and any(key(strip_ver(s)) in ("settings['iterationSteps']", "settings.get('iterationSteps')") for s in subterms(st[0].value))
         ctx.check(ok, ss, ss.node, "the session length is the same configured value the offsets accumulate", "self.iteration_steps = int(settings['iterationSteps'])", "; ".join(short(e.value) for e in st))
         break
 
@@ -414,3 +432,10 @@ def r7(ctx: Ctx) -> None:
                 ctx.violated(g, node, "a market's series is reached through its accessors (which refuse future times)", "market.get_<series>(time) / self.<series> inside Market", f"{_ast.unparse(node)} in {g.qualname}: the read bypasses the `later than now` test")
     ctx.require(n >= 10, "series attribute accesses not found")
     ctx.holds(None, None, "no function outside Market reads a series attribute directly", "reads only via accessors", f"{n} accesses inspected")
+
+
+@rule("C06.H2", "mechanism shared with C18: a session lasts the configured number of steps, 0 included (the value is not replaced or rejected through its truth value)", "T13 lint (same rule as C18.R10, Session only)", floor=1)
+def h2(ctx: Ctx) -> None:
+    from .events import check_or_defaults
+
+    check_or_defaults(ctx, "Session", floor=1)
